@@ -268,6 +268,7 @@ func checkC18(c *Ctx) {
 	c.Clause("a pattern taken from the configuration and registered on a ServeMux next to constant patterns (metrics path next to /health) is refused by validation when it equals one of them (the mux would panic at start-up)")
 	c.Clause("no plugin writes into the option map it is given (nil when a chain entry has no config block: a write panics at start-up)")
 	c.Clause("validation looks at the request/trace ID header names and can refuse them (a name that is not an HTTP field name would make every proxied request fail)")
+	c.Clause("validation judges the whole value: no integer taken from the configuration (a rune of a name, a port, a count) is narrowed to a smaller integer type before a bound test")
 	c.NotDecided("README prose beyond the enumerations above; yaml.v3 decoding itself; that an accepted configuration yields a working proxy")
 
 	// 1. completeness of validation
@@ -794,6 +795,7 @@ func checkC18(c *Ctx) {
 	c.muxPatternsCannotCollide()
 	c.optionMapReadOnly()
 	c.idHeaderNamesValidated()
+	c.validatorsJudgeWholeValue()
 
 	// 6. start-up
 	c.mainFatal()
@@ -1440,6 +1442,70 @@ func (c *Ctx) muxPatternsCannotCollide() {
 					}
 					return false
 				})
+				// http.ServeMux reads a pattern that does not begin with "/" as host+path: registered
+				// under the go.mod language version's mux it never matches a request (every path of the
+				// endpoint answers 404), under the 1.22 mux it panics — validation refuses it
+				{
+					n++
+					slashed := false
+					for _, vf := range p.Funcs {
+						vp := fnPkg(vf)
+						if vp == nil || !strings.HasSuffix(vp.Pkg.Path(), "/internal/config") {
+							continue
+						}
+						instrsOf(vf, func(in ssa.Instruction) {
+							ifi, ok := in.(*ssa.If)
+							if !ok || slashed {
+								return
+							}
+							fromFld := func(v ssa.Value) bool {
+								return c.flowsFrom(v, func(x ssa.Value) bool {
+									if u, isU := x.(*ssa.UnOp); isU {
+										x = u.X
+									}
+									fr, ok := fieldRefOf(x)
+									return ok && fr.Key() == field
+								})
+							}
+							tests := c.flowsFrom(ifi.Cond, func(v ssa.Value) bool {
+								switch x := v.(type) {
+								case *ssa.Call:
+									if CalleeName(x) == "strings.HasPrefix" && len(x.Call.Args) == 2 {
+										k, isK := constStr(x.Call.Args[1])
+										return isK && k == "/" && fromFld(x.Call.Args[0])
+									}
+								case *ssa.BinOp:
+									// path[0] != '/'
+									for _, pair := range [][2]ssa.Value{{x.X, x.Y}, {x.Y, x.X}} {
+										k, isK := pair[1].(*ssa.Const)
+										if !isK || k.Value == nil || k.Value.ExactString() != "47" {
+											continue
+										}
+										switch e := pair[0].(type) {
+										case *ssa.Index:
+											return fromFld(e.X)
+										case *ssa.Lookup:
+											return fromFld(e.X)
+										}
+									}
+								}
+								return false
+							})
+							if !tests {
+								return
+							}
+							for _, sb := range ifi.Block().Succs {
+								for _, in2 := range sb.Instrs {
+									if ret, isRet := in2.(*ssa.Return); isRet && len(ret.Results) > 0 && !isConstNil(ret.Results[len(ret.Results)-1]) {
+										slashed = true
+									}
+								}
+							}
+						})
+					}
+					c.Check(slashed, rule, p.FuncKey(fn)+"/"+field+"/leading-slash", p.InstrPos(r.at), "validation tests the configured pattern for its leading \"/\" and can refuse it",
+						fmt.Sprintf("%s is registered as a ServeMux pattern and validation never looks at its first character: a value without a leading slash (\"metrics\") is accepted, the mux takes it for a host name, and the endpoint the configuration enabled answers 404 on every path (the 1.22 mux panics at start-up instead)", field))
+				}
 				for _, k := range consts {
 					n++
 					construct := p.FuncKey(fn) + "/" + field + "≠" + k
